@@ -111,6 +111,7 @@ pub fn profile_for(prop: &str, thorough: bool) -> Profile {
             });
         }
         "C01" => {
+            p.dup_heavy_permille = 80;
             p.kernel_fault_permille = 200;
             p.preset_incident_permille = 60;
             p.min_len = 0;
@@ -127,6 +128,7 @@ pub fn profile_for(prop: &str, thorough: bool) -> Profile {
             p.families = &["grid", "dyadic", "jitter", "dyadic"];
         }
         "C09" => {
+            p.dup_heavy_permille = 80;
             p.class_b_permille = 120;
             p.kernel_fault_permille = 80;
             p.multi = true;
@@ -180,6 +182,7 @@ pub fn profile_for(prop: &str, thorough: bool) -> Profile {
             });
         }
         "C19" => {
+            p.dup_heavy_permille = 40;
             p.kernel_fault_permille = 150;
             p.preset_incident_permille = 60;
             p.class_a_permille = 200;
